@@ -5,6 +5,7 @@
 From Coq Require Extraction.
 From Coq Require Import ExtrOcamlBasic ExtrOcamlString.
 From XP Require Import Base F64 Doc Ast Scan Parse Build Hash Eval Api Render Driver.
+From XP.Model1 Require Import Driver3.
 Extraction Language OCaml.
-Extraction "model.ml" run_sel run_eval run_sel_all run_eval_all run_compile run_parse run_qdump run_hash run_cache_str run_nav run_num run_fmt
+Extraction "model.ml" run_sel run_eval run_sel_all run_eval_all run_sel3_all run_eval3_all run_compile run_parse run_qdump run_hash run_cache_str run_nav run_num run_fmt
   mkNode mkAttr T KRoot KElem KText KComment.
